@@ -17,12 +17,14 @@
    Proofs: Repl/ClientStruct_proofs.v, Repl/StructE2E_proofs.v.
 
    Scope of B: policy PAll, legal scripts, single session (no StStop / StDisconnect), no SMap operation
-   (so no pre-spawn mapping in any update message), mutate messages are never delivered (they may be
-   queued and dropped).  Out of scope: see the counterexamples at the end for why each restriction of A
-   is needed. *)
+   (so no pre-spawn mapping in any update message), and either
+     (B1-B3)  mutate messages are never delivered (they may be queued and dropped), any number of ticks, or
+     (B4-B6)  mutate messages are delivered in any order with losses, fewer than 2^31 ticking server frames
+              (replicon ticks do not wrap): the history argument (A6) shows they never change the structure.
+   Out of scope: see the counterexamples at the end for why each restriction of A is needed. *)
 From RV Require Import Lib.Res Repl.ClientTicks Repl.World Vis.Visibility Repl.Server Repl.ServerSpec
   Repl.StructSpec Repl.Client Repl.Sys Repl.Client_proofs Repl.ClientStructSpec Repl.ClientStruct_proofs
-  Repl.StructE2E_proofs.
+  Repl.ClientHist_proofs Repl.ClientMaps_proofs Repl.StructE2E_proofs Repl.StructE2EMut_proofs.
 Open Scope N_scope.
 
 (* ---- A1. reading `client_struct` ---- *)
@@ -54,6 +56,22 @@ Proof.
   intros c u c' Hinv Hm H.
   exact (proj2 (proj2 (proj2 (update_message_srel c (client_struct c) u c' Hinv (srel_self c (cs_inv_nodup c Hinv)) Hm H)))).
 Qed.
+
+(* ... and with pre-spawn mappings, when each mapping concerns a server entity the client does not know,
+   which occurs in the changes array of the same message, and a pre-spawned entity that is neither marked
+   nor mapped ([map_step_ok], checked along the mappings in order by [maps_ok]) *)
+Theorem C03E_update_message_maps : forall c u c',
+  cs_inv c -> maps_ok (set_upd_tick c (u_tick u)) (u_maps u) ->
+  (forall e, In e (map fst (u_maps u)) -> In e (map fst (u_changes u))) ->
+  apply_update_message c u = Ok c' ->
+  struct_equiv (client_struct c') (abs_apply (client_struct c) u) /\ cs_inv c' /\ cl_upd_tick c' = u_tick u.
+Proof. exact update_message_struct_maps. Qed.
+
+Theorem C03E_update_message_one_map : forall c u c' e pc,
+  cs_inv c -> u_maps u = [(e, pc)] -> map_step_ok c e pc -> In e (map fst (u_changes u)) ->
+  apply_update_message c u = Ok c' ->
+  struct_equiv (client_struct c') (abs_apply (client_struct c) u) /\ cs_inv c' /\ cl_upd_tick c' = u_tick u.
+Proof. exact update_message_struct_one_map. Qed.
 
 (* the abstract effect respects extensional equality *)
 Theorem C03E_abs_apply_equiv : forall S1 S2 u, struct_equiv S1 S2 -> struct_equiv (abs_apply S1 u) (abs_apply S2 u).
@@ -107,6 +125,51 @@ Theorem C03E_client_frame_no_mutations : forall c ops c' out,
   struct_equiv (client_struct c') (fold_left abs_apply (cl_inbox_upd c) (client_struct c)) /\ cs_inv c' /\ cl_inbox_upd c' = [].
 Proof. exact frame_struct_no_mutations. Qed.
 
+(* ---- A6. the history argument: why an old mutate message cannot change the structure ---- *)
+
+(* an update message keeps the history invariant: every replicated entity the client holds has been
+   confirmed at the tick of the last applied message that mentioned it, or later *)
+Theorem C03E_update_message_hist : forall c u c' applied,
+  cs_inv c -> u_maps u = [] -> apply_update_message c u = Ok c' ->
+  ent_hist_ok applied c -> (forall u0, In u0 applied -> u_tick u0 <= u_tick u) ->
+  ent_hist_ok (applied ++ [u]) c'.
+Proof. exact update_message_hist. Qed.
+
+(* ... and so do mutate messages (ticks below 2^31) *)
+Theorem C03E_mutate_messages_hist : forall applied c c' out,
+  cs_inv c /\ hist_small c /\ ent_hist_ok applied c ->
+  (forall m, In m (cl_buffered c) -> small_tick (m_tick m)) ->
+  apply_mutate_messages c = Ok (c', out) ->
+  cs_inv c' /\ hist_small c' /\ ent_hist_ok applied c'.
+Proof. exact mutate_messages_hist. Qed.
+
+(* the history invariant and what the server guarantees about its mutate messages ([mmsg_ok]) give [mut_safe] *)
+Theorem C03E_history_mut_safe : forall c applied pend,
+  cs_inv c -> struct_equiv (client_struct c) (fold_left abs_apply applied []) -> ent_hist_ok applied c -> hist_small c ->
+  ticks_incr (applied ++ pend) -> (forall u, In u (applied ++ pend) -> small_tick (u_tick u)) ->
+  (applied <> [] -> cl_upd_tick c = u_tick (last applied dflt_upd)) ->
+  (forall m, In m (cl_buffered c) -> mmsg_ok (applied ++ pend) m) ->
+  mut_safe c.
+Proof.
+  intros c applied pend Hinv Hrel. apply history_mut_safe; [exact Hinv|].
+  apply srel_struct_equiv; [exact (cs_inv_nodup c Hinv)|exact Hrel].
+Qed.
+
+(* a whole client frame under the history invariant: update messages, mutate messages, client operations *)
+Theorem C03E_client_frame_hist : forall c applied lupd ops c' out,
+  hist_pre c applied lupd -> cl_status c = Connected -> client_frame c ops = Ok (c', out) ->
+  cs_inv c' /\ pu c' /\
+  struct_equiv (client_struct c') (fold_left abs_apply (applied ++ cl_inbox_upd c) []) /\
+  ent_hist_ok (applied ++ cl_inbox_upd c) c' /\ hist_small c' /\
+  (applied ++ cl_inbox_upd c <> [] -> cl_upd_tick c' = u_tick (last (applied ++ cl_inbox_upd c) dflt_upd)) /\
+  cl_inbox_upd c' = [] /\ cl_inbox_mut c' = [] /\ cl_status c' = Connected /\
+  (forall m, In m (cl_buffered c') -> In m (cl_inbox_mut c ++ cl_buffered c)).
+Proof.
+  intros c applied lupd ops c' out Hp Hc H.
+  destruct (frame_hist c applied lupd ops c' out Hp Hc H) as (A & B & C & D).
+  split; [exact A|]. split; [exact B|]. split; [|exact D]. apply srel_struct_equiv; [exact (cs_inv_nodup c' A)|exact C].
+Qed.
+
 (* ---- B. whole-system runs ---- *)
 
 (* the run with its ghost is the run *)
@@ -114,6 +177,13 @@ Theorem C03E_erun_is_run :
   (forall script y gs y' gs', erun y gs script = Ok (y', gs') -> run y script = Ok y') /\
   (forall script y gs y', run y script = Ok y' -> exists gs', erun y gs script = Ok (y', gs')).
 Proof. split; [exact erun_run|exact run_erun]. Qed.
+
+(* the ghost of a whole-system run is the `g_sent` of the server-only run (`grun`, C03S) of the projected
+   script: C03S_run_invariant / C03S_run_sends_diffs apply to it *)
+Theorem C03E_ghost_is_grun : forall cfg0 nclients script y gs,
+  single_session script = true -> erun (sys_init cfg0 nclients) [] script = Ok (y, gs) ->
+  grun cfg0 ginit (proj_script (sys_init cfg0 nclients) script) = Ok (mkG (y_server y) gs).
+Proof. exact erun_grun_init. Qed.
 
 Theorem C03E_script_ok : forall script,
   script_ok script = legal script && single_session script && no_smap script && no_mut_delivery script.
@@ -161,10 +231,54 @@ Theorem C03E_every_moment : forall cfg0 nclients, cfg_policy cfg0 = PAll ->
     struct_equiv (client_struct c) (struct_of (y_server y1)) /\ cl_upd_tick c = sv_tick (y_server y1).
 Proof. exact e2e_every_moment. Qed.
 
+(* ---- B4-B6. the same with mutate messages delivered in any order, with losses ---- *)
+
+Theorem C03E_script_okm : forall script,
+  script_okm script = legal script && single_session script && no_smap script.
+Proof. exact script_okm_split. Qed.
+
+Theorem C03E_fifo_mut : forall cfg0 nclients, cfg_policy cfg0 = PAll ->
+  forall script y gs slot c,
+  script_okm script = true -> tick_frames script < 2 ^ 31 ->
+  erun (sys_init cfg0 nclients) [] script = Ok (y, gs) ->
+  al_get slot (y_clients y) = Some c -> cl_status c = Connected ->
+  ginv (mkG (y_server y) gs) /\
+  exists applied,
+    struct_equiv (client_struct c) (fold_left abs_apply applied []) /\
+    fold_left abs_apply (applied ++ cl_inbox_upd c ++ l_upd (get_link y slot)) [] = sent_of slot gs /\
+    (applied <> [] -> cl_upd_tick c = u_tick (last applied dflt_upd)) /\
+    ticks_incr (applied ++ cl_inbox_upd c ++ l_upd (get_link y slot)) /\
+    (forall p q, applied ++ cl_inbox_upd c ++ l_upd (get_link y slot) = p ++ q -> p <> [] ->
+       exists pre post y1, script = pre ++ post /\ run (sys_init cfg0 nclients) pre = Ok y1 /\
+         struct_equiv (fold_left abs_apply p []) (struct_of (y_server y1)) /\
+         u_tick (last p dflt_upd) = sv_tick (y_server y1)).
+Proof. exact m_fifo. Qed.
+
+Theorem C03E_in_flight_mut : forall cfg0 nclients, cfg_policy cfg0 = PAll ->
+  forall script y gs slot c,
+  script_okm script = true -> tick_frames script < 2 ^ 31 ->
+  erun (sys_init cfg0 nclients) [] script = Ok (y, gs) ->
+  al_get slot (y_clients y) = Some c -> cl_status c = Connected ->
+  struct_equiv (fold_left abs_apply (cl_inbox_upd c ++ l_upd (get_link y slot)) (client_struct c)) (sent_of slot gs).
+Proof. exact m_in_flight. Qed.
+
+(* C03 end to end: updates and mutations delivered, in any interleaving the channels allow *)
+Theorem C03E_every_moment_mut : forall cfg0 nclients, cfg_policy cfg0 = PAll ->
+  forall script y slot c,
+  script_okm script = true -> tick_frames script < 2 ^ 31 ->
+  run (sys_init cfg0 nclients) script = Ok y ->
+  al_get slot (y_clients y) = Some c ->
+  struct_equiv (client_struct c) [] \/
+  exists pre post y1, script = pre ++ post /\ run (sys_init cfg0 nclients) pre = Ok y1 /\
+    struct_equiv (client_struct c) (struct_of (y_server y1)) /\ cl_upd_tick c = sv_tick (y_server y1).
+Proof. exact m_every_moment. Qed.
+
 Print Assumptions C03E_client_struct_get.
 Print Assumptions C03E_init.
 Print Assumptions C03E_update_message.
 Print Assumptions C03E_update_message_completes.
+Print Assumptions C03E_update_message_maps.
+Print Assumptions C03E_update_message_one_map.
 Print Assumptions C03E_abs_apply_equiv.
 Print Assumptions C03E_mutate_messages.
 Print Assumptions C03E_cop.
@@ -174,10 +288,19 @@ Print Assumptions C03E_client_frame.
 Print Assumptions C03E_client_frame_no_mutations.
 Print Assumptions C03E_erun_is_run.
 Print Assumptions C03E_script_ok.
+Print Assumptions C03E_ghost_is_grun.
 Print Assumptions C03E_fifo.
 Print Assumptions C03E_ghost_invariant.
 Print Assumptions C03E_in_flight.
 Print Assumptions C03E_every_moment.
+Print Assumptions C03E_update_message_hist.
+Print Assumptions C03E_mutate_messages_hist.
+Print Assumptions C03E_history_mut_safe.
+Print Assumptions C03E_client_frame_hist.
+Print Assumptions C03E_script_okm.
+Print Assumptions C03E_fifo_mut.
+Print Assumptions C03E_in_flight_mut.
+Print Assumptions C03E_every_moment_mut.
 
 (* ---- the statements are not vacuous ---- *)
 
@@ -237,6 +360,55 @@ Proof.
   exact (C03E_every_moment ex_cfg 2 eq_refl ex_script y slot c (proj1 C03E_ex_run) E Hc).
 Qed.
 
+(* mutate messages delivered out of order: the tick-2 mutate message for kind 1 of entity 1 reaches the
+   client after the tick-3 update message that removed kind 1 (and after the newer tick-4 mutate message);
+   `apply_mutations` skips it, the structure stays {0}; the run satisfies the hypotheses of B4-B6 *)
+Definition ex_cfg_track : cfg := mkCfg PAll AuthNone true 1000.
+Definition ex_mut : list step :=
+  [StStart; StConnect 0 1200;
+   sfr true [SSpawn 1 true [(0, VNat 1); (1, VNat 2)]];
+   StDeliver 0 true 0 All; StDeliver 0 true 1 All; StCFrame 0 [];
+   sfr true [SMutate 1 1 (VNat 5)];
+   sfr true [SRemove 1 1];
+   sfr true [SMutate 1 0 (VNat 7)];
+   StDeliver 0 true 0 First; StCFrame 0 [];
+   StDeliver 0 true 1 Last; StCFrame 0 [];
+   StDeliver 0 true 1 First; StCFrame 0 [];
+   StDeliver 0 true 1 All; StCFrame 0 []].
+
+Definition ex_mut_view (r : res sys) :=
+  match r with
+  | Ok y => Some (map (fun sc => (cl_upd_tick (snd sc), client_struct (snd sc),
+                                  map (fun kv => ce_comps (snd kv)) (cl_ents (snd sc)),
+                                  map (fun m => (m_upd_tick m, m_tick m, m_body m)) (l_mut (get_link y (fst sc))))) (y_clients y),
+                  struct_of (y_server y), sv_tick (y_server y))
+  | _ => None
+  end.
+
+Example C03E_ex_mutations :
+  script_okm ex_mut = true /\ tick_frames ex_mut = 4 /\
+  (* after the update message of tick 3 is applied, three mutate messages are still queued *)
+  ex_mut_view (run (sys_init ex_cfg_track 1) (firstn 11 ex_mut))
+    = Some ([(3, [(1, [0])], [[(0, CNat 1)]],
+              [(1, 2, [(1, [(1, VNat 5)])]); (3, 3, []); (3, 4, [(1, [(0, VNat 7)])])])], [(1, [0])], 4) /\
+  (* all of them delivered, newest first: the value of kind 0 is updated, kind 1 does not come back *)
+  ex_mut_view (run (sys_init ex_cfg_track 1) ex_mut)
+    = Some ([(3, [(1, [0])], [[(0, CNat 7)]], [])], [(1, [0])], 4).
+Proof. vm_compute. repeat split; reflexivity. Qed.
+
+Example C03E_ex_mutations_instance :
+  exists y, run (sys_init ex_cfg_track 1) ex_mut = Ok y /\
+    forall slot c, al_get slot (y_clients y) = Some c ->
+      struct_equiv (client_struct c) [] \/
+      exists pre post y1, ex_mut = pre ++ post /\ run (sys_init ex_cfg_track 1) pre = Ok y1 /\
+        struct_equiv (client_struct c) (struct_of (y_server y1)) /\ cl_upd_tick c = sv_tick (y_server y1).
+Proof.
+  destruct (run (sys_init ex_cfg_track 1) ex_mut) as [y| |] eqn:E; [|vm_compute in E; discriminate|vm_compute in E; discriminate].
+  exists y. split; [reflexivity|]. intros slot c Hc.
+  refine (C03E_every_moment_mut ex_cfg_track 1 eq_refl ex_mut y slot c (proj1 C03E_ex_mutations) _ E Hc).
+  rewrite (proj1 (proj2 C03E_ex_mutations)). reflexivity.
+Qed.
+
 (* ---- why the hypotheses of A are there: concrete witnesses ---- *)
 
 (* (1) `cs_inv` / `cop_safe`.  A client despawns a pre-spawned entity that a server entity is mapped to
@@ -257,6 +429,19 @@ Example C03E_witness_unsafe_despawn :
   | _ => None
   end = Some (2, [], [(1, [0]); (2, [0])]).
 Proof. vm_compute. repeat split; reflexivity. Qed.
+
+(* a message with a pre-spawn mapping that satisfies [map_step_ok]: the pre-spawned entity 7 becomes the
+   replica of server entity 1 (instance of C03E_update_message_one_map) *)
+Example C03E_ex_one_map :
+  map_step_ok w_c1 1 7 /\
+  match apply_update_message w_c1 w_u1 with
+  | Ok c => Some (client_struct c, abs_apply (client_struct w_c1) w_u1, map (fun kv => ce_pre (snd kv)) (cl_ents c))
+  | _ => None
+  end = Some ([(1, [0])], [(1, [0])], [Some 7]).
+Proof.
+  split; [|vm_compute; reflexivity]. split; [reflexivity|].
+  intros cid x H _. vm_compute in H. inversion H; subst. split; reflexivity.
+Qed.
 
 (* (2) `mut_safe`.  A buffered mutate message of a newer tick that names a kind the entity does not have
        adds the kind (the server never produces such a message: C03S / the history argument). *)
